@@ -136,7 +136,11 @@ def h_scale(ctx, name, n, const=False, nan_at=None):
     data = list(xs)
     if nan_at is not None:
         data.insert(nan_at, float("nan"))
-    got = f(arr(data))
+    try:
+        got = f(arr(data))
+    except Exception as exc:
+        ctx.claim(False, f"{name} raised {type(exc).__name__}", info=str(exc)[:200])
+        return
     ctx.observe("value", got)
     ctx.claim(got >= 0, f"{name} is non-negative")
     ctx.claim(approx(got, scale_oracle(name, xs)), f"{name} agrees with an independent implementation of its formula")
@@ -260,8 +264,24 @@ def h_biweight_outlier(ctx, n, side):
     ctx.cover("reached")
 
 
-def h_biweight(ctx, which, n, const):
+def h_biweight(ctx, which, n, const, nan_at=None):
     xs = vec(ctx, n, const=const)
+    if nan_at is not None:
+        data = list(xs)
+        data.insert(nan_at, float("nan"))
+        try:
+            got = (D.biweight_location if which == "loc" else D.biweight_midvariance)(arr(data))
+        except Exception as exc:
+            ctx.claim(False, f"biweight {which} raised {type(exc).__name__}", info=str(exc)[:200])
+            return
+        if which == "loc":
+            ctx.claim(And(got >= Min_(xs) - 1e-9, got <= Max_(xs) + 1e-9), "biweight location ignores NaN and lies within the data range")
+        else:
+            ctx.claim(got >= 0, "biweight midvariance ignores NaN and is non-negative")
+        if n == 1:
+            ctx.claim(approx(got, xs[0] if which == "loc" else 0), "a single finite value among NaNs: location is that value, midvariance 0")
+        ctx.cover("reached")
+        return
     if which == "loc":
         got = D.biweight_location(arr(xs))
         ctx.observe("value", got)
@@ -370,6 +390,8 @@ def _scale_cfgs():
             out.append(c)
         out.append({"name": name, "n": 3, "const": True})
         out.append({"name": name, "n": 2, "nan_at": 1})
+        out.append({"name": name, "n": 1, "nan_at": 0})  # exactly one finite value among NaNs
+        out.append({"name": name, "n": 1, "nan_at": 1, "tier": "thorough"})
         out.append({"name": name, "n": 3, "nan_at": 0, "tier": "thorough"})
     return out
 
@@ -449,7 +471,8 @@ HARNESSES = [
     Harness(
         "biweight",
         h_biweight,
-        [{"which": w, "n": n, "const": c} for w in ("loc", "var") for (n, c) in ((1, False), (2, False), (3, True), (4, True))],
+        [{"which": w, "n": n, "const": c} for w in ("loc", "var") for (n, c) in ((1, False), (2, False), (3, True), (4, True))]
+        + [{"which": w, "n": n, "const": c, "nan_at": 0} for w in ("loc", "var") for (n, c) in ((1, False), (3, True))],
         covers=["reached"],
         wall_s=120,
         query_timeout_ms=20000,
